@@ -376,3 +376,102 @@ func (ex *Exec) lazyTypeAssert(fr *Frame, site ssa.Instruction, i Iface, asserte
 	n.lz.excluded[want] = true
 	return nil, false
 }
+
+// jsonSame: structural equality of two JSON trees; unresolved lazy nodes compare by identity,
+// so comparing two readings of the same input document forks nothing.
+func (ex *Exec) jsonSame(a, b *JNode, site ssa.Instruction) *Term {
+	if a == b {
+		return tTrue
+	}
+	if a.kind == JLazy {
+		ex.forceKind(a, site, -1)
+	}
+	if b.kind == JLazy {
+		ex.forceKind(b, site, -1)
+	}
+	if a.kind != b.kind {
+		return tFalse
+	}
+	switch a.kind {
+	case JNull:
+		return tTrue
+	case JBool:
+		return tEq(a.b, b.b)
+	case JStr:
+		return tEq(a.s.(*Term), b.s.(*Term))
+	case JNum:
+		x, y := a.num, b.num
+		if x.Sort == y.Sort {
+			return tEq(x, y)
+		}
+		tf := func(t *Term, signed bool) *Term {
+			switch {
+			case t.Sort == SF64:
+				return t
+			case t.Sort == SInt:
+				return tIntToF64(t)
+			}
+			return tBVToF64(t, signed)
+		}
+		return tEq(tf(x, a.numSigned), tf(y, b.numSigned))
+	case JArr:
+		if len(a.arr) != len(b.arr) {
+			return tFalse
+		}
+		r := tTrue
+		for i := range a.arr {
+			r = tAnd(r, ex.jsonSame(a.arr[i], b.arr[i], site))
+		}
+		return r
+	case JObj:
+		if a.lz != nil && !a.closed {
+			ex.lazyClose(a, site)
+		}
+		if b.lz != nil && !b.closed {
+			ex.lazyClose(b, site)
+		}
+		if len(a.keys) != len(b.keys) {
+			return tFalse
+		}
+		r := tTrue
+		for i, k := range a.keys {
+			ks, ok := k.StrVal()
+			if !ok {
+				// symbolic member name: must be the same term on the other side
+				found := false
+				for j, k2 := range b.keys {
+					if k2 == k {
+						r = tAnd(r, ex.jsonSame(a.vals[i], b.vals[j], site))
+						found = true
+					}
+				}
+				if !found {
+					return tFalse
+				}
+				continue
+			}
+			c := b.member(ks)
+			if c == nil {
+				return tFalse
+			}
+			r = tAnd(r, ex.jsonSame(a.vals[i], c, site))
+		}
+		return r
+	}
+	return mkBool(a.kind == b.kind)
+}
+
+func (ex *Exec) nodeOfIface(fr *Frame, site ssa.Instruction, v Value) *JNode {
+	i := v.(Iface)
+	if i.t == nil {
+		return jNull()
+	}
+	if isLazyIface(i) {
+		return i.v.(*JNode)
+	}
+	n, e := ex.jsonMarshal(fr, site, i.v, i.t, nil)
+	if e != nil {
+		panic(unsupported("vSameJSON: value not encodable"))
+	}
+	return n
+}
